@@ -42,6 +42,9 @@ Definition mref_eqb := result_eqb (pair_eqb (pair_eqb (pair_eqb Z.eqb Z.eqb) Z.e
 def markup_doc(rng):
     """(markup, expectation hints)"""
     names = ["Smith", "Jones", "Roe", "Wade", "Brown", "Lissner", "Katz", "Miranda", "Halper", "Nobelman"]
+    if rng.random() < 0.25:
+        # names the validity rule rejects (two letters, abbreviation, number, lower case, disallowed) next to valid ones
+        names = names[:4] + ["Li", "Wu", "Ng", "Co.", "State", "People", "1234", "smith", "Commonwealth"]
     pl, df = rng.sample(names, 2)
     vol, rep, page = rng.choice([1, 12, 410, 550]), rng.choice(["U.S.", "F.3d", "S. Ct.", "F. Supp. 2d"]), rng.choice([1, 113, 544])
     it = rng.choice(["em", "i"])
@@ -77,6 +80,15 @@ def markup_doc(rng):
     if pieces[0].startswith("<p>"):
         pieces.append("</p>")
     return "".join(pieces), (pl, df)
+
+
+def valid_name_rule(name):
+    """the name-validity rule as documented ("excludes strings like Co., numbers or lower case strs"; longer than
+    two characters; not one of the disallowed generic names), written out here so that a change of
+    utils.is_valid_name does not change the oracle"""
+    generic = {"state", "united states", "people", "commonwealth", "mass"}
+    return (isinstance(name, str) and len(name) > 2 and name[0].isupper() and not name.endswith(".")
+            and not name.isdigit() and name.lower() not in generic)
 
 
 def canon(c):
@@ -132,7 +144,7 @@ def run(ctx):
                 if f.span()[0] < ss or f.span() == r.span():
                     for k in ReferenceCitation.name_fields:
                         v = getattr(f.metadata, k, None)
-                        if v and is_valid_name(v):
+                        if v and valid_name_rule(v):
                             names.append(re.sub(r"\s+", " ", v))
             if any(f.span()[0] < ss for f in fulls) is False:
                 ctx.violation(None, "a reference citation does not lie after any full case citation", dict(stream="markup", markup=markup, steps=steps, ref=(ss, se)))
